@@ -230,7 +230,15 @@ def run(ctx):
                 if tv.get(GET) == "Some" and arr and tv[arr[0]] == "None":
                     ok_ = r == "False"
                 else:
-                    ok_ = tv.get(GET) == "Some" and bool(arr) and tv[arr[0]] == "Some" and re.fullmatch(r"(?:\w+::)*contains\(" + re.escape(arr[0].replace(" ", "")) + r"\.Some\.0," + re.escape(VAL) + r"\)", r) is not None
+                    ARR_ = re.escape(arr[0].replace(" ", "")) + r"\.Some\.0" if arr else ""
+                    ok_ = tv.get(GET) == "Some" and bool(arr) and tv[arr[0]] == "Some" and re.fullmatch(r"(?:\w+::)*contains\(" + ARR_ + "," + re.escape(VAL) + r"\)", r) is not None
+                    if not ok_ and tv.get(GET) == "Some" and arr and tv[arr[0]] == "Some":
+                        # `items.iter().any(|item| item == value)`: the closure is exactly the comparison of its element with the condition's value
+                        m_ = re.fullmatch(r"Iterator::any\((?:slice::iter|IntoIterator::into_iter)\(" + ARR_ + r"\),closure\[([^\]]+)\]\{(\w+)=" + re.escape(VAL) + r"\}\)", r)
+                        if m_:
+                            cps = D.Dex(w.lookup, adt_discr=w.adt_discr, inline=lambda n: False).paths(w.fn(m_.group(1)), [D.sym("env"), D.sym("x")])
+                            cap = "env." + m_.group(2)
+                            ok_ = len(cps) == 1 and cps[0].kind == "ret" and D.show(cps[0].ret).replace(" ", "") in (f"{cap}==x", f"x=={cap}")
             if not ok_:
                 bad_p.append((r[:140], sorted((k[-60:], v_) for k, v_ in tv.items() if "self." + var in k)))
         ctx.floor(f"paths of PushCondition::applies for {var}", n_var, 2)
